@@ -91,12 +91,19 @@ func newConcurrentProcess(par int) *concurrentProcess {
 
 func (proc *concurrentProcess) run(eg *errgroup.Group, exec *cmdExecution, callback func([]byte, error) error) {
 	proc.wg.Add(1)
+	verifPoint("add", eg, exec, nil)
 	eg.Go(func() error {
 		defer proc.wg.Done()
+		defer verifPoint("done", eg, exec, nil)
+		verifPoint("go", eg, exec, nil)
 		if err := proc.sema.Acquire(proc.ctx, 1); err != nil {
 			return fmt.Errorf("could not acquire semaphore to run %q: %w", exec.cmd, err)
 		}
+		verifPoint("acq", eg, exec, nil)
+		verifPoint("start", eg, exec, nil)
 		stdout, err := exec.run()
+		verifPoint("exit", eg, exec, err)
+		verifPoint("rel", eg, exec, nil)
 		proc.sema.Release(1)
 		return callback(stdout, err)
 	})
@@ -104,6 +111,7 @@ func (proc *concurrentProcess) run(eg *errgroup.Group, exec *cmdExecution, callb
 
 // wait waits all goroutines started by this concurrentProcess instance finish.
 func (proc *concurrentProcess) wait() {
+	defer verifPoint("pwait", proc, nil, nil)
 	proc.wg.Wait() // Wait for all goroutines completing to shutdown
 }
 
@@ -169,5 +177,6 @@ func (cmd *externalCommand) run(args []string, stdin string, callback func([]byt
 // wait waits until all goroutines for this command finish. Note that it does not wait for
 // goroutines for other commands.
 func (cmd *externalCommand) wait() error {
+	defer verifPoint("rwait", &cmd.eg, nil, nil)
 	return cmd.eg.Wait()
 }
